@@ -19,6 +19,7 @@ package config
 //@   at store-map vals assert gc.OnlySafeKeys && !ext_priority_key(key) ==> docsafe(key)
 //@   at store-map vals assert gc.OnlySafeKeys && ext_priority_key(key) ==> docsafe(key)
 //@   at store-map vals assert mapkey__ == key && len(mapval__) == len(vals[key]) + 1 && mapval__[len(vals[key])] == val
+//@   loop 2 iter defined(val) ==> len(ignored) > iter(len(ignored)) || (has(vals, key) && len(vals[key]) >= 1 && vals[key][len(vals[key]) - 1] == val)
 //@   at store-map extensions assert gc.OnlySafeKeys ==> ext.Clean == extensions[name].Clean
 //@   at store-map extensions assert gc.OnlySafeKeys ==> ext.Smudge == extensions[name].Smudge
 //@   at store-map extensions assert gc.OnlySafeKeys ==> ext.Priority == extensions[name].Priority
